@@ -127,15 +127,15 @@ var calls = []callSpec{
 	{"Readlink", false, true},
 	{"EvalSymlinks", false, true},
 	{"Chmod", true, true},
-	{"Chtimes", true, true},
-	{"Truncate", true, true},
+	{"Chtimes", true, false},
+	{"Truncate", true, false},
 	{"Mkdir-below", true, true},
 	{"Remove", true, true},
 	{"Rename(q,zz)", true, true},
-	{"Rename(f,q)", true, true},
-	{"Lchown", true, true},
-	{"Chown", true, true},
-	{"Link(q,hl)", true, true},
+	{"Rename(f,q)", true, false},
+	{"Lchown", true, false},
+	{"Chown", true, false},
+	{"Link(q,hl)", true, false},
 	{"Link(f,q)", true, true},
 }
 
